@@ -74,15 +74,8 @@ Definition enq_time (st : VState) : Z := match st with ChargeQueueing _ _ t => t
 Definition queue_le (a b : Vehicle) : bool :=
   let ta := enq_time (v_state a) in let tb := enq_time (v_state b) in
   Z.ltb ta tb || (Z.eqb ta tb && Pos.leb (v_id a) (v_id b)).
-Fixpoint insert_by {A} (le : A -> A -> bool) (x : A) (l : list A) : list A :=
-  match l with
-  | [] => [x]
-  | y :: t => if le x y then x :: l else y :: insert_by le x t
-  end.
-Definition sort_by {A} (le : A -> A -> bool) (l : list A) : list A := fold_right (insert_by le) [] l.
-
 Definition update_order (s : Sim) : list Vehicle :=
-  let vs := map snd (PM.elements (vehicles s)) in        (* ascending id *)
+  let vs := sorted_vals (vehicles s) in        (* ascending id *)
   let others := filter (fun v => negb (is_queueing (v_state v))) vs in
   let queued := filter (fun v => is_queueing (v_state v)) vs in
   others ++ sort_by queue_le queued.
@@ -102,7 +95,7 @@ Definition cancel_one (s : Sim) (rid : id) : Sim :=
            end
   end.
 Definition cancel_requests (s : Sim) : Sim :=
-  fold_left cancel_one (map fst (PM.elements (requests s))) s.
+  fold_left cancel_one (sorted_keys (requests s)) s.
 
 (* ---- update_requests_from_file.py : _update for one already-parsed row ---- *)
 Definition admit_request (s : Sim) (r : Request) : Sim :=
@@ -131,6 +124,8 @@ Definition update_station_prices (s : Sim) (sid : id) (prices : list (id * Q)) :
   end.
 
 (* ---- driver states ---- *)
+Fixpoint assoc_q (tab : list (id * Q)) (k : id) : option Q :=
+  match tab with [] => None | (x, v) :: t => if Pos.eqb x k then Some v else assoc_q t k end.
 Definition tod (t : Z) : Z := Z.modulo t 86400.
 Definition sched_active (sid : id) (t : Z) : option bool :=
   match e_sched env sid with
@@ -144,7 +139,7 @@ Definition apply_new_driver_state (s : Sim) (vid : id) (d : Driver) : res Sim :=
   end.
 (* charge_params (HumanUnavailableChargeParameters.build) depends on the station search;
    it is supplied by the caller as an oracle value *)
-Definition driver_update (range_target : id -> option Q) (s : Sim) (v : Vehicle) : res Sim :=
+Definition driver_update (range_target : list (id * Q)) (s : Sim) (v : Vehicle) : res Sim :=
   match v_driver v with
   | Autonomous => Ok s
   | HumanAvailable sch home =>
@@ -155,7 +150,7 @@ Definition driver_update (range_target : id -> option Q) (s : Sim) (v : Vehicle)
           | None => Err
           | Some cur =>
               apply_new_driver_state (emit s (EvSchedule (v_id v) false (sim_time s))) (v_id v)
-                                     (HumanUnavailable sch home (range_target (v_id v)))
+                                     (HumanUnavailable sch home (assoc_q range_target (v_id v)))
           end
       end
   | HumanUnavailable sch home _ =>
@@ -171,9 +166,9 @@ Definition driver_update (range_target : id -> option Q) (s : Sim) (v : Vehicle)
       end
   end.
 (* perform_driver_state_updates: on error the fold resumes from the *initial* state *)
-Definition perform_driver_state_updates (range_target : id -> option Q) (s0 : Sim) : Sim :=
+Definition perform_driver_state_updates (range_target : list (id * Q)) (s0 : Sim) : Sim :=
   fold_left (fun acc v => match driver_update range_target acc v with Ok s' => s' | _ => s0 end)
-            (map snd (PM.elements (vehicles s0))) s0.
+            (sorted_vals (vehicles s0)) s0.
 
 (* ---- the operation alphabet ---- *)
 Inductive Op :=
@@ -182,26 +177,26 @@ Inductive Op :=
 | OpCancel
 | OpAdmit (rows : list Request)
 | OpPrices (updates : list (id * list (id * Q)))     (* station id -> [(plug type, price)] *)
-| OpDrivers
+| OpDrivers (range_target : list (id * Q))   (* oracle: HumanUnavailableChargeParameters per vehicle going off shift *)
 | OpTick
 | OpClearApplied.
 
-Definition step_op (range_target : id -> option Q) (s : Sim) (o : Op) : Sim :=
+Definition step_op (s : Sim) (o : Op) : Sim :=
   match o with
   | OpApply is => apply_instructions s is
   | OpUpdateVehicles => perform_vehicle_state_updates s
   | OpCancel => cancel_requests s
   | OpAdmit rows => admit_requests s rows
   | OpPrices ups => fold_left (fun acc u => update_station_prices acc (fst u) (snd u)) ups s
-  | OpDrivers => perform_driver_state_updates range_target s
+  | OpDrivers rt => perform_driver_state_updates rt s
   | OpTick => sim_tick s
   | OpClearApplied => s <| applied := PM.empty _ |>
   end.
 
 (* one full Update.apply_update with the controller abstracted to the instruction list it yields *)
-Definition full_step (range_target : id -> option Q) (s : Sim)
+Definition full_step (range_target : list (id * Q)) (s : Sim)
            (prices : list (id * list (id * Q))) (rows : list Request) (is : list Instr) : Sim :=
-  fold_left (step_op range_target)
-            [OpClearApplied; OpPrices prices; OpAdmit rows; OpCancel; OpDrivers; OpApply is; OpUpdateVehicles; OpTick] s.
+  fold_left step_op
+            [OpClearApplied; OpPrices prices; OpAdmit rows; OpCancel; OpDrivers range_target; OpApply is; OpUpdateVehicles; OpTick] s.
 
 End WithEnv.
